@@ -23,6 +23,7 @@ extern "C" int LLVMFuzzerTestOneInput(const uint8_t *data, size_t size) {
 	uint8_t sizeclass = c.byte();
 	f.allow_big = sizeclass >= 250;               // 16 MiB dictionaries / presets 7-9: rare (cost)
 	ec::draw_config(c, g, f);
+	if (size && (data[size - 1] & 7) == 7) g.warm = 1 + ((data[size - 1] >> 3) & 3);   // 1/8 of the cases: the encoder runs on a handle that has just encoded something else
 	uint32_t maxlen = sizeclass < 150 ? (1u << 14) : (sizeclass < 235 ? (1u << 18) : (3u << 20));
 	Recipe r = draw_recipe(c, maxlen, g.lz.dict_size);
 	if (sizeclass >= 235 && sizeclass < 250 && !g.use_preset && g.lz.dict_size <= (1u << 16) && r.len < (600u << 10)) r.len = (600u << 10) + (r.len & 0xFFFFF); // window slides: > 1.5*dict + 0.5 MiB
